@@ -1,4 +1,5 @@
 """C15 — generated solids are closed, consistently wound and carry unit normals."""
+import json
 import os
 
 import vf
@@ -17,6 +18,32 @@ def run(tier):
     vf.run_harness(binpath, ["mesh", "gen", "--seed", vf.seed(), "--tier", tier], stdout_path=cases)
     vf.exec_and_validate(chk, binpath, "mesh", "TV_Mesh", cases, jvms=8, what="solid")
     chk.cov["distinct_nontrivial"] = chk.cov["traces_validated_against_impl"]
+    # growth beyond the statement: the mesh builder as a state machine (MeshB.tla); every behaviour TLC
+    # explores is replayed on the real builder, plus seeded longer histories; rejections are notes
+    mcons = {"MaxOps": 4 if tier == "quick" else 5, "Export": "TRUE"}
+    mcfg = vf.write_cfg(os.path.join(d, "MC_MeshB.cfg"), mcons, invariants=["Laws", "ExportInv"], view="View")
+    rm = vf.tlc("MC_MeshB", mcfg, workers=8, gc="parallel", heap="8g")
+    chk.add_mc("MC_MeshB (extra coverage)", rm, mcons)
+    bcases = os.path.join(d, "meshb_gen.ndjson")
+    nb = 0
+    with open(bcases, "w") as f:
+        for ln in rm.prints:
+            t = vf.parse_print(ln)
+            if t and t[0] == "REPLAY":
+                f.write(json.dumps({"k": "b%d" % nb, "ops": json.loads(t[1])}, separators=(",", ":")) + "\n")
+                nb += 1
+    rnd = os.path.join(d, "meshb_rnd.ndjson")
+    vf.run_harness(binpath, ["meshb", "gen", "--seed", vf.seed(), "--tier", tier], stdout_path=rnd)
+    extra = {"builder_behaviours_replayed": nb}
+    for name, path in (("replayed", bcases), ("random", rnd)):
+        vf.run_harness(binpath, ["meshb", "exec", path], stdout_path=path + ".trace")
+        nrec, nev, badb = vf.validate_trace("TV_MeshB", path + ".trace", jvms=8)
+        vf.log("[tv] meshb (%s): %d histories / %d calls judged by TV_MeshB: %d rejected" % (name, nrec, nev, len(badb)))
+        extra["builder_histories_" + name] = nrec
+        extra["builder_rejected_" + name] = len(badb)
+        for b in badb[:5]:
+            chk.note("extra-coverage: mesh builder history %s rejected at call %s: %s" % (b["key"], b["info"][0], str(b["info"][1])[:300]))
+    chk.cov["extra_coverage"] = extra
     chk.cov["rule"] = ("every sector count 3..8 (thorough: 16) x segment count 1..5 (10) of sphere, torus, cylinder, cone "
                        "(apex or base radius zero included), capsule (1-3 cap segments), capped and uncapped, three radii; "
                        "lathe cylinders over four partial azimuth ranges; the five Platonic solids and three boxes; TLC "
